@@ -78,6 +78,12 @@ const R_ALL: &[(&str, Fm)] = &[
     // (and exceptions) with an initiator domain that differ in their tag only
     ("bar$important,domain=example.com,tag=t1", Fm::Std),
     ("bar$important,domain=example.com,tag=t2", Fm::Std),
+    // a token-less rule filed under two initiator domains next to one filed under one of them: both
+    // match the same request, so the rule reported (debug) depends on the order inside the bucket
+    ("bar$script,domain=example.com|tracker.co.uk", Fm::Std),
+    ("bar$script,domain=example.com", Fm::Std),
+    ("foo$image,domain=example.com|ads.net", Fm::Std),
+    ("foo$image,domain=example.com", Fm::Std),
     ("@@bar$domain=example.com,tag=t1", Fm::Std),
     ("@@bar$domain=example.com,tag=t2", Fm::Std),
     // --- redirect / redirect-rule
